@@ -200,3 +200,9 @@ def _arg0_chain(body, op, depth=0):
 # sensitivity pack (thorough tier): each seeded edit must be reported by the named rule instance
 MUTANTS = [{'name': 'seeded-C07-a', 'patch': 'C07-a/patch.diff', 'expect': ('R7.1', 'index_inscriptions', 'seen.insert')},
            {'name': 'seeded-C07-b', 'patch': 'C07-b/patch.diff', 'expect': ('R7.4', 'update_inscription_location', 'remove(old_latest')}]
+
+
+# behaviour-preserving pack (thorough tier)
+NEUTRAL = [
+  {'name': 'parent filter: insert result bound first', 'file': 'src/index/updater/inscription_updater.rs', 'old': '          .retain(|parent| seen.insert(*parent) && potential_parents.contains(parent));', 'new': '          .retain(|parent| {\n            let first_time = seen.insert(*parent);\n            first_time && potential_parents.contains(parent)\n          });'},
+]
